@@ -220,12 +220,16 @@ def lookahead(setup, tr):
     k = tr["n"] - 1
     m_next, m1_next = refmodel.mass_step(tr["m"][k], tr["x"][k], tr["J"][k], setup.area, setup.dt)
     x_next = m1_next / m_next if m_next != 0 else math.nan
-    if setup.kind in ISO:
-        t_next = tr["T"][k]
-    elif setup.prog == "none":
-        t_next = refmodel.self_cooling(setup.mixture, tr["T"][k], tr["m"][k], tr["x"][k], tr["Q"][k])
-    else:
-        t_next = U.programme_value(setup.prog, tr["time"][k] + setup.dt)
+    try:
+        if setup.kind in ISO:
+            t_next = tr["T"][k]
+        elif setup.prog == "none":
+            t_next = refmodel.self_cooling(setup.mixture, tr["T"][k], tr["m"][k], tr["x"][k], tr["Q"][k])
+        else:
+            t_next = U.programme_value(setup.prog, tr["time"][k] + setup.dt)
+        t_next = float(t_next)
+    except (ArithmeticError, ValueError, TypeError):
+        t_next = math.nan
     return m_next, x_next, t_next
 
 
@@ -310,11 +314,15 @@ def justify_raise(setup, exc):
     x2 = m1 / m2 if m2 != 0 else math.nan
     if setup.kind in ISO:
         t2 = t
-    elif setup.prog == "none":
-        q = refmodel.evaporation_heat(setup.mixture, t, flux, setup.area, setup.dt)
-        t2 = refmodel.self_cooling(setup.mixture, t, m, x, q)
     else:
-        t2 = U.programme_value(setup.prog, time_j + setup.dt)
+        try:
+            if setup.prog == "none":
+                q = refmodel.evaporation_heat(setup.mixture, t, flux, setup.area, setup.dt)
+                t2 = float(refmodel.self_cooling(setup.mixture, t, m, x, q))
+            else:
+                t2 = float(U.programme_value(setup.prog, time_j + setup.dt))
+        except (ArithmeticError, ValueError, TypeError):
+            t2 = math.nan
     if not (m2 > tolm * m) or not (tolm <= x2 <= 1 - tolm) or not (0 < t2 < math.inf):
         return "justified", "state %d leaves the admissible region (m=%r x=%r T=%r)" % (j + 1, m2, x2, t2), j
     return "unjustified", "reference stepper and real solver reach admissible state %d (m=%r x=%r T=%r) but the %d-step run raised %r" % (
